@@ -1,6 +1,7 @@
 import Driver.C10
 import LettreVerif.Model.Mime
 import LettreVerif.Spec.MimeParse
+import LettreVerif.Proofs.Mime
 namespace LV.Driver.C11
 open LV LV.Driver LV.Mime LV.MimeParse
 
@@ -104,7 +105,12 @@ def mimeOp : List String → String
         | some e => propfail e
         | none =>
           match buildTree (infos.splitOn ",") bl with
-          | some (t, _, _) => if format t == p then "ok" else mismatch "mime" (format t)
+          | some (t, _, _) =>
+            if format t != p then mismatch "mime" (format t) else
+            -- do the hypotheses of `C11.parse_format` hold on these real header blocks and boundaries?
+            match MimeProof.annot t with
+            | some a => if MimeProof.wfB a then "ok wf" else "ok not-wf"
+            | none => "ok header-block-not-fields"
           | none => "BADLINE"
     | _, _, _, _ => "BADLINE"
   | l => if l.contains "PANIC" then propfail "panic" else "BADLINE"
